@@ -7,8 +7,9 @@ from engine.vtime import real_timedelta
 from harness.common import World, mem_places, place_names, run_async, try_consume
 
 
-def h14_mem(S, steps=4, n_msgs=2):
-    """Two NORMAL consumers on one in-memory queue: consume / finish / ack / reject histories."""
+def h14_mem(S, steps=4, n_msgs=2, backend="mem"):
+    """Two NORMAL consumers on one queue (in-memory, or two Redis connections to one server, one call after the other):
+    consume / finish / ack / reject histories."""
     from repid import Connection, InMemoryMessageBroker
     from repid.data._key import RoutingKey
     import repid.data._parameters as P
@@ -18,24 +19,34 @@ def h14_mem(S, steps=4, n_msgs=2):
     trace = []
 
     async def main(loop):
-        broker = InMemoryMessageBroker()
-        conn = Connection(broker)
-        await conn.connect()
-        await broker.queue_declare("default")
+        if backend == "redis":
+            from fakes import redis as fr
+            srv = fr.FakeServer()
+            brokers = {"A": fr.mk_broker(srv, "A"), "B": fr.mk_broker(srv, "B")}
+            broker = brokers["A"]
+        else:
+            broker = InMemoryMessageBroker()
+            brokers = {"A": broker, "B": broker}
+            conn = Connection(broker)
+            await conn.connect()
+            await broker.queue_declare("default")
         for i in range(n_msgs):
             await broker.enqueue(RoutingKey(topic="job", queue="default", id_=f"m{i}"), "p", P.Parameters(timestamp=P.datetime.now()))
-        cons = {"A": broker.get_consumer("default", ["job"]), "B": broker.get_consumer("default", ["job"])}
+        cons = {w: brokers[w].get_consumer("default", ["job"]) for w in ("A", "B")}
         for c in cons.values():
-            await c.start()
+            if backend == "redis":
+                c.POLLING_WAIT = 0
+            else:
+                await c.start()
         for step in range(steps):
-            menu = [("consume", "A"), ("consume", "B"), ("finish", "A"), ("finish", "B")]
+            menu = [("consume", "A"), ("consume", "B")] + ([("finish", "A"), ("finish", "B")] if backend == "mem" else [])
             for mid, who in holder.items():
                 menu += [("ack", mid), ("reject", mid)]
             op, arg = menu[S.pick(f"op{step}", len(menu))]
             trace.append((op, arg))
             S.tag("last_op", op)
             if op == "consume":
-                got = await try_consume(cons[arg])
+                got = await (cons[arg].consume_or_none() if backend == "redis" else try_consume(cons[arg]))
                 if got is not None:
                     mid = got[0].id_
                     S.cover("delivered")
@@ -57,10 +68,10 @@ def h14_mem(S, steps=4, n_msgs=2):
                     del holder[mid]          # returned by its holder's shutdown
                 S.cover("finish")
             elif op == "ack":
-                await broker.ack(RoutingKey(topic="job", queue="default", id_=arg))
+                await brokers[holder[arg]].ack(RoutingKey(topic="job", queue="default", id_=arg))
                 del holder[arg]
             elif op == "reject":
-                await broker.reject(RoutingKey(topic="job", queue="default", id_=arg))
+                await brokers[holder[arg]].reject(RoutingKey(topic="job", queue="default", id_=arg))
                 del holder[arg]
                 S.cover("reject")
 
@@ -444,6 +455,11 @@ HARNESSES = [
             bounds={"consumers": "2 on one in-memory queue", "messages": "2", "history": "4 quick / 5 thorough calls from {A.consume, B.consume, A.finish, B.finish, ack/reject by the holder}"},
             functions=["connections/in_memory/consumer.py:_InMemoryConsumer.finish", "connections/in_memory/consumer.py:_InMemoryConsumer.consume"],
             covers=["delivered", "finish", "reject"]),
+    Harness(name="H14-redis-hist", scenario=h14_mem, workers=16, budget_s=900,
+            params={"quick": {"steps": 4, "n_msgs": 3, "backend": "redis"}, "thorough": {"steps": 5, "n_msgs": 3, "backend": "redis"}},
+            bounds={"two consumers": "two Redis connections to one server, their calls one after the other (no overlap: the overlapping take is H14-redis-race)",
+                    "messages": "3 in one fetch window", "history": "4 (quick) / 5 (thorough) calls from {consume by either, ack, reject}"},
+            functions=["connections/redis/consumer.py:_RedisConsumer.consume_or_none"], covers=["delivered"], stubs=["fake Redis server"]),
     Harness(name="H14-requeue-cancel", scenario=h14_requeue_cancel, workers=4,
             bounds={"requeue cancelled after": "0..7 loop steps, then reject by the holder (the runner's forced-stop sequence)", "requeue": "immediate or with a past due time"},
             functions=["connections/in_memory/message_broker.py:InMemoryMessageBroker.requeue"], covers=["requeue-cancelled"]),
